@@ -174,6 +174,21 @@ func (w *wld) apply(e event) {
 	case "snapshot":
 		w.used.snapshots++
 		w.SnapshotTick(e.Node)
+	case "drain": // directed histories only: deliver everything in flight (sorted order), up to 300 messages
+		for i := 0; i < 300 && len(w.Net) > 0; i++ {
+			w.Deliver(w.SortedNet()[0], false)
+		}
+	case "deliver1", "drop1": // directed histories only: the first in-flight message whose key contains e.Msg
+		for _, m := range w.SortedNet() {
+			if strings.Contains(m.Key(), e.Msg) {
+				if e.Kind == "deliver1" {
+					w.Deliver(m, false)
+				} else {
+					w.Drop(m)
+				}
+				break
+			}
+		}
 	case "cut":
 		w.used.cuts++
 		w.Cut[[2]uint64{e.Node, e.Peer}] = true
@@ -349,6 +364,36 @@ type phase struct {
 	prefix []event // fixed prefix leading to an interesting root (replayed, not explored)
 }
 
+// directed histories: situations a bounded BFS from boot does not reach (a follower lagging behind a compacted log).
+// Every prefix of each history is followed by the convergence probe.
+func directed() map[string][]event {
+	lag := []event{
+		{Kind: "timeout", Node: 1}, {Kind: "drain"},
+		{Kind: "cut", Node: 1, Peer: 3}, // n3 falls behind
+		{Kind: "propose", Node: 1, Arg: 1}, {Kind: "drain"},
+		{Kind: "propose", Node: 1, Arg: 2}, {Kind: "drain"},
+		{Kind: "snapshot", Node: 1}, {Kind: "snapshot", Node: 2}, // the leader compacts what n3 lacks
+		{Kind: "heal", Node: 1, Peer: 3},
+		{Kind: "tick", Node: 1}, {Kind: "deliver1", Msg: "1>3 MsgHeartbeat"},
+	}
+	h := map[string][]event{}
+	// the snapshot message cannot be sent (the link fails again just before)
+	h["lagging-follower-snapshot-rpc-fails"] = append(append([]event{}, lag...),
+		event{Kind: "cut", Node: 1, Peer: 3}, event{Kind: "deliver1", Msg: "3>1 MsgHeartbeatResp"}, event{Kind: "drain"})
+	// the snapshot message is sent and lost
+	h["lagging-follower-snapshot-lost-in-flight"] = append(append([]event{}, lag...),
+		event{Kind: "deliver1", Msg: "3>1 MsgHeartbeatResp"}, event{Kind: "drop1", Msg: "1>3 MsgSnap"}, event{Kind: "drain"})
+	// the snapshot arrives; the follower crashes while installing it (before / after the flush) and restarts
+	for _, after := range []bool{false, true} {
+		h[fmt.Sprintf("lagging-follower-crashes-installing-snapshot-after-flush-%v", after)] = append(append([]event{}, lag...),
+			event{Kind: "deliver1", Msg: "3>1 MsgHeartbeatResp"}, event{Kind: "crashat", Node: 3, After: after}, event{Kind: "deliver1", Msg: "1>3 MsgSnap"}, event{Kind: "drain"})
+	}
+	// the leader changes while the follower still lags behind the compacted log
+	h["lagging-follower-then-leader-change"] = append(append([]event{}, lag...),
+		event{Kind: "crash", Node: 1}, event{Kind: "timeout", Node: 2}, event{Kind: "drain"}, event{Kind: "propose", Node: 2, Arg: 3}, event{Kind: "drain"})
+	return h
+}
+
 func phases(thorough bool) []phase {
 	elect3 := []event{{Kind: "timeout", Node: 1}}
 	ps := []phase{
@@ -422,6 +467,34 @@ func main() {
 			w2.Close()
 			if c1 != c2 {
 				ev.Tool("the simulated cluster is not deterministic: two runs of the same history differ\n%s\n%s", c1, c2)
+			}
+		}
+		if si == 0 {
+			nodes, limits = 3, budget{99, 99, 99, 99, 99, 99, 99, 99}
+			for name, h := range directed() {
+				for cut := 1; cut <= len(h); cut++ {
+					w, k, d := build(h[:cut])
+					if k == "" {
+						k, d = converge(w)
+						res.Probes++
+					}
+					w.Close()
+					res.St.Transitions++
+					res.St.Outcomes["directed: "+map[bool]string{true: "ok", false: k}[k == ""]]++
+					if k != "" {
+						dup := false
+						for _, v := range res.Violations {
+							dup = dup || v.Key == "probe:"+k
+						}
+						if !dup {
+							res.Violations = append(res.Violations, struct {
+								Key, Desc string
+								Path      []event
+								Nodes     int
+							}{"probe:" + k, fmt.Sprintf("directed history %s, prefix of %d events: %s", name, cut, d), h[:cut], 3})
+						}
+					}
+				}
 			}
 		}
 		for _, ph := range phases(thorough) {
